@@ -337,10 +337,44 @@ func genCount(rng *rand.Rand, mapLike bool) int {
 	return 2 + rng.Intn(7)
 }
 
-func fill(v reflect.Value, rng *rand.Rand, depth int) {
+// gctx is the generator state: forceN > 0 forces the size of the first collection (map or non-byte
+// slice) met on the way down to exactly forceN entries; small keeps every element tiny (used with
+// forced sizes so that a 65 536-entry record stays a few MB).
+type gctx struct {
+	rng    *rand.Rand
+	forceN int
+	skip   int
+	small  bool
+}
+
+func (g *gctx) bytes() []byte {
+	if g.small {
+		b := make([]byte, g.rng.Intn(9))
+		g.rng.Read(b)
+		return b
+	}
+	return genBytes(g.rng)
+}
+
+func (g *gctx) count(mapLike bool) (int, bool) {
+	if g.forceN > 0 && g.skip > 0 {
+		g.skip--
+	} else if g.forceN > 0 {
+		n := g.forceN
+		g.forceN = 0
+		return n, true
+	}
+	if g.small {
+		return g.rng.Intn(3), false
+	}
+	return genCount(g.rng, mapLike), false
+}
+
+func fill(v reflect.Value, g *gctx, depth int) {
+	rng := g.rng
 	t := v.Type()
 	if t == bigIntPtr {
-		b := genBytes(rng)
+		b := g.bytes()
 		if len(b) > 40 {
 			b = b[:40]
 		}
@@ -363,7 +397,7 @@ func fill(v reflect.Value, rng *rand.Rand, depth int) {
 	case reflect.Int32:
 		v.SetInt(int64(int32(genUint(rng, 32))))
 	case reflect.String:
-		v.SetString(string(genBytes(rng)))
+		v.SetString(string(g.bytes()))
 	case reflect.Array:
 		if t.Elem().Kind() == reflect.Uint8 {
 			if rng.Intn(10) != 0 {
@@ -374,15 +408,15 @@ func fill(v reflect.Value, rng *rand.Rand, depth int) {
 			return
 		}
 		for i := 0; i < v.Len(); i++ {
-			fill(v.Index(i), rng, depth+1)
+			fill(v.Index(i), g, depth+1)
 		}
 	case reflect.Slice:
 		if t.Elem().Kind() == reflect.Uint8 {
-			v.SetBytes(genBytes(rng))
+			v.SetBytes(g.bytes())
 			return
 		}
-		n := genCount(rng, false)
-		if depth > 1 && n > 8 {
+		n, forced := g.count(false)
+		if !forced && depth > 1 && n > 8 {
 			n = n % 8
 		}
 		if n == 0 && rng.Intn(2) == 0 {
@@ -390,35 +424,39 @@ func fill(v reflect.Value, rng *rand.Rand, depth int) {
 		}
 		s := reflect.MakeSlice(t, n, n)
 		for i := 0; i < n; i++ {
-			fill(s.Index(i), rng, depth+1)
+			fill(s.Index(i), g, depth+1)
 		}
 		v.Set(s)
 	case reflect.Ptr:
 		p := reflect.New(t.Elem())
-		fill(p.Elem(), rng, depth+1)
+		fill(p.Elem(), g, depth+1)
 		v.Set(p)
 	case reflect.Struct:
 		for i := 0; i < v.NumField(); i++ {
 			if t.Field(i).PkgPath != "" {
 				continue
 			}
-			fill(v.Field(i), rng, depth+1)
+			fill(v.Field(i), g, depth+1)
 		}
 	case reflect.Map:
-		n := genCount(rng, true)
+		n, forced := g.count(true)
 		if n == 0 && rng.Intn(2) == 0 {
 			return // nil map
 		}
 		m := reflect.MakeMapWithSize(t, 0)
-		for tries := 0; m.Len() < n && tries < 4*n+8; tries++ {
+		for tries := 0; m.Len() < n && tries < 20*n+8; tries++ {
 			k := reflect.New(t.Key()).Elem()
-			fill(k, rng, depth+1)
-			if t.Key().Kind() == reflect.String && rng.Intn(3) == 0 {
+			fill(k, g, depth+1)
+			if !forced && t.Key().Kind() == reflect.String && rng.Intn(3) == 0 {
 				// near-identical keys: common prefix, differ in the last byte / by length
 				k.SetString("peer" + string([]byte{byte(rng.Intn(4))}) + strings.Repeat("x", rng.Intn(3)))
 			}
+			if forced && t.Key().Kind() == reflect.String {
+				// distinct by construction (random short keys would collide at 65 536 entries)
+				k.SetString(fmt.Sprintf("%s%05x", k.String(), m.Len()))
+			}
 			e := reflect.New(t.Elem()).Elem()
-			fill(e, rng, depth+2)
+			fill(e, g, depth+2)
 			m.SetMapIndex(k, e)
 		}
 		v.Set(m)
@@ -541,12 +579,24 @@ func equal(a, b reflect.Value, path string) (bool, string) {
 }
 
 func (s *spec) gen(rng *rand.Rand) interface{} {
+	v, _ := s.genN(rng, 0, 0)
+	return v
+}
+
+// genN generates a value whose (skip+1)-th collection (map or non-byte slice, in field order,
+// depth first) has exactly n entries (n > 0), all elements small. The second result tells whether
+// the type has such a collection.
+func (s *spec) genN(rng *rand.Rand, n, skip int) (interface{}, bool) {
 	v := s.mk()
-	fill(reflect.ValueOf(v).Elem(), rng, 0)
+	g := &gctx{rng: rng, forceN: n, skip: skip, small: n > 0}
+	fill(reflect.ValueOf(v).Elem(), g, 0)
+	if n > 0 && g.forceN != 0 {
+		return nil, false
+	}
 	if s.fix != nil {
 		s.fix(v, rng)
 	}
-	return v
+	return v, true
 }
 
 func (s *spec) same(a, b interface{}) (bool, string) {
@@ -641,7 +691,7 @@ func TestC04(t *testing.T) {
 	setup()
 	rep := &reporter{r: r, seen: map[string]int{}}
 	reg := registry()
-	r.Rule("explicit registry of parameter / record types; values from a reflection-driven, boundary-biased generator constrained to each type's representable domain (var-uint edges, 0/252..256/65535+ byte lengths, nil vs empty, near-identical map keys, map sizes 0..40); " +
+	r.Rule("explicit registry of parameter / record types; values from a reflection-driven, boundary-biased generator constrained to each type's representable domain (var-uint edges, 0/252..256/65535+ byte lengths, nil vs empty, near-identical map keys, map sizes 0..40; then every collection of every type forced to 252/253/254/255/256 and 65535/65536 entries with small elements); " +
 		"map-bearing records rebuilt in 8 insertion orders × capacities and encoded repeatedly; hostile inputs per type = every truncation, length/count-field substitutions {00,fd,fe,ff + wide values}, appended bytes and random strings, decoded in child processes; " +
 		"distinct = (type, shape of the value: lengths classes / map size) and (type, hostile class, outcome)")
 	r.Assume("deep equality treats nil and empty slices / maps as the same value and compares big.Int by value")
@@ -673,8 +723,33 @@ func TestC04(t *testing.T) {
 			defer func() { <-sem; wg1.Done() }()
 			rng := r.Rand("values/" + s.name)
 			okc := 0
-			for i := 0; i < nvals; i++ {
-				v := s.gen(rng)
+			// after the ordinary values: collection sizes at the var-uint boundaries, for each of
+			// the first three collections of the type (252..256 around 0xfd, 65535/65536 around 0xfe)
+			type bsz struct{ n, skip int }
+			var plan []bsz
+			for skip := 0; skip < 3; skip++ {
+				for _, n := range []int{252, 253, 254, 255, 256, 65535, 65536} {
+					if n > 60000 && skip > 0 && r.Quick() {
+						continue
+					}
+					plan = append(plan, bsz{n, skip})
+				}
+			}
+			hasColl := false
+			for i := 0; i < nvals+len(plan); i++ {
+				var v interface{}
+				forced := 0
+				if i < nvals {
+					v = s.gen(rng)
+				} else {
+					b := plan[i-nvals]
+					var ok bool
+					if v, ok = s.genN(rng, b.n, b.skip); !ok {
+						continue // the type has no such collection
+					}
+					forced = b.n
+					hasColl = true
+				}
 				r.Eval(1)
 				var b0 []byte
 				var err error
@@ -705,13 +780,28 @@ func TestC04(t *testing.T) {
 					continue
 				}
 				okc++
+				if forced > 60000 {
+					r.Count("boundary_64k_ok:"+s.name, 1)
+					r.Count("boundary_64k_ok", 1)
+				} else if forced > 0 {
+					r.Count("boundary_size_ok:"+s.name, 1)
+					r.Count("boundary_size_ok", 1)
+					r.Count(fmt.Sprintf("boundary_size_ok:n=%d", forced), 1)
+				}
 				ml := maxMapLen(reflect.ValueOf(v))
+				if forced > 0 {
+					r.Distinct(s.name, "forced-size", forced)
+				}
 				r.Distinct(s.name, lenClass(len(b0)), ml)
 				if s.maps {
 					bad := false
-					for o := 0; o < orders && !bad; o++ {
+					no, ne := orders, encsPer
+					if ml > 1000 {
+						no, ne = 2, 1
+					}
+					for o := 0; o < no && !bad; o++ {
 						v2 := s.perm(v, rng)
-						for e := 0; e < encsPer; e++ {
+						for e := 0; e < ne; e++ {
 							b2, err := s.encode(v2)
 							r.Eval(1)
 							if err != nil || !bytes.Equal(b2, b0) {
@@ -737,12 +827,19 @@ func TestC04(t *testing.T) {
 			r.Count("roundtrip_ok", okc)
 			r.Count("roundtrip_ok:"+s.name, okc)
 			r.Require("roundtrip_ok:"+s.name, nvals*9/10)
+			if hasColl {
+				r.Require("boundary_size_ok:"+s.name, 5)
+				r.Require("boundary_64k_ok:"+s.name, 2)
+			}
 			if s.maps {
 				r.Require("canonical3:"+s.name, nvals/4)
 			}
 		}()
 	}
 	wg1.Wait()
+
+	r.Require("boundary_size_ok", 100)
+	r.Require("boundary_size_ok:node_manager.PeerPoolMap", 5)
 
 	hostileParent(r, rep, reg)
 }
